@@ -512,6 +512,15 @@ def main():
         json.dump({"scenario": sc, "meta": meta}, open(os.path.join(d, "scenario.json"), "w"), indent=1)
         failed = rc != 0
         flew = "flew farther" in out
+        if flew and steps:
+            # implementation-side oracle (C09): the documented error is only legitimate when some particle really moves farther than
+            # one cell in one step (force-free scenarios: displacement = |v| dt)
+            st0 = steps[0]
+            w = [min(c["c2"][d] - c["c1"][d] for c in st0["cells"]) for d in range(3)]
+            too_fast = any(abs(p["v"][d]) * st0["dt"] >= w[d] for p in steps[-1]["particles"] if not p["frozen"] for d in range(3))
+            if not too_fast:
+                violations.append({"case": i, "step": steps[-1]["step"], "what": "PARTICLEFLEWTOOFAR reported although every free particle moves less than one cell width per step "
+                                   "(cell widths %s, dt %s): a legal crossing was rejected" % ([str(x) for x in w], st0["dt"])})
         if not steps or (failed and not flew):
             disagreements.append({"case": i, "step": None, "what": "sympler failed: rc=%d %s" % (rc, out[-300:])})
             continue
